@@ -5,8 +5,10 @@ CONSTANTS NP = 3 NA = 3 NS = 1 V6 = {3} BlackAddr = {2} BlackMid = {3} IpCap = 2
 VIEW NoRetOp
 INVARIANT TypeOK
 INVARIANT LookupsAgree
+INVARIANT HistoryAgrees
 INVARIANT BlacklistedNeverVerified
 INVARIANT SnapshotRoundTrip
 PROPERTY QueriesPure
 PROPERTY RemovedIsGone
+PROPERTY RemovedIsClean
 PROPERTY ReAddWorks
